@@ -689,7 +689,24 @@ func (g *vgen) xdyMods(t *Term, timesHi, sidesLo, sidesHi int64, allowDrop bool,
 
 func (g *vgen) xdy(depth int) *Term {
 	t := &Term{K: "xdy", Up: rapid.IntRange(0, 5).Draw(g.t, "up") == 0}
-	form := rapid.IntRange(0, 19).Draw(g.t, "xdyForm")
+	form := rapid.IntRange(0, 22).Draw(g.t, "xdyForm")
+	if form >= 20 {
+		// chained term XdYdZ…: the count of every further element is the value before it, so the head stays small
+		t.X = g.opd(1, 6, depth)
+		t.Y = g.opd(1, 8, depth)
+		prevHi := 6 * g.xdyMods(t, 6, 1, 8, false, depth)
+		n := 1
+		if rapid.IntRange(0, 3).Draw(g.t, "chain2") == 0 {
+			n = 2
+		}
+		for i := 0; i < n; i++ {
+			c := &Term{K: "chain", Up: t.Up}
+			c.Y = g.opd(1, 6, depth)
+			prevHi *= g.xdyMods(c, prevHi, 1, 6, i == n-1, depth)
+			t.Chain = append(t.Chain, c)
+		}
+		return t
+	}
 	timesLo, timesHi := int64(1), int64(1)
 	sidesLo, sidesHi := int64(100), int64(100)
 	if form <= 13 { // X present
@@ -720,22 +737,7 @@ func (g *vgen) xdy(depth int) *Term {
 	}
 	switch {
 	case form <= 13: // XdY and Xd: keep/drop, min/max
-		faceHi := g.xdyMods(t, timesHi, sidesLo, sidesHi, true, depth)
-		// chains: only after an explicit-sides term that cannot come out as 0 and stays small
-		if explicitY && t.Keep != "dl" && t.Keep != "dh" && timesHi*faceHi <= 100 && rapid.IntRange(0, 9).Draw(g.t, "chain") < 3 {
-			n := 1
-			if rapid.IntRange(0, 3).Draw(g.t, "chain2") == 0 {
-				n = 2
-			}
-			prevHi := timesHi * faceHi
-			for i := 0; i < n; i++ {
-				c := &Term{K: "chain", Up: t.Up}
-				c.Y = g.opd(1, 6, depth)
-				fh := g.xdyMods(c, prevHi, 1, 6, i == n-1, depth)
-				t.Chain = append(t.Chain, c)
-				prevHi *= fh
-			}
-		}
+		g.xdyMods(t, timesHi, sidesLo, sidesHi, true, depth)
 	case form == 14: // dY with 优势/劣势
 		t.Keep = rapid.SampledFrom([]string{"优势", "優勢", "劣势", "劣勢"}).Draw(g.t, "pear")
 		if rapid.IntRange(0, 3).Draw(g.t, "mmOn") == 0 {
